@@ -1927,22 +1927,31 @@ theorem Nl.head_isNl (nl : Nl) (x : Bytes) : ∃ a t, nl.bytes ++ x = a :: t ∧
 theorem NoOther.append {nl : Nl} {a b : Bytes} : NoOther nl (a ++ b) ↔ NoOther nl a ∧ NoOther nl b := by
   cases nl <;> simp [NoOther]
 
-/-- what follows `--boundary`: `--` + anything (closing delimiter) or the line break + the header
-block of the next part (which does not start with LF) -/
+/-- `--boundary` + transport padding + line break + a byte that is not LF: the non-closing delimiter
+line ends with the line break -/
+theorem matchTail_pad_nl {nl : Nl} {pad : Bytes} {c : UInt8} (r : Bytes) (hpad : ∀ x ∈ pad, isHws x = true)
+    (hc : c ≠ 10) : matchTail (pad ++ (nl.bytes ++ c :: r)) = some (pad.length + nl.len, false) := by
+  rcases nl.head_isNl (c :: r) with ⟨a, t, he, ha⟩
+  apply matchTail_false_iff.2
+  exact ⟨pad, a, t, by rw [he], hpad, ha, by rw [← he, Nl.lbLen_append r hc]⟩
+
+/-- what follows `--boundary`: `--` + anything (closing delimiter) or transport padding (horizontal
+white space, any amount) + the line break + the header block of the next part (which does not start
+with LF) -/
 def AfterDelimNl (nl : Nl) (tail : Bytes) (f : Bool) (rest : Bytes) : Prop :=
   (f = true ∧ ∃ x, tail = 45 :: 45 :: x ∧
     rest = x.drop ((x.takeWhile isHws).length + lbLen (x.dropWhile isHws))) ∨
-  (f = false ∧ ∃ c r, c ≠ 10 ∧ tail = nl.bytes ++ c :: r ∧ rest = c :: r)
+  (f = false ∧ ∃ pad c r, (∀ x ∈ pad, isHws x = true) ∧ c ≠ 10 ∧
+    tail = pad ++ (nl.bytes ++ c :: r) ∧ rest = c :: r)
 
 theorem matchTail_afterDelimNl {nl : Nl} {tail : Bytes} {f : Bool} {rest : Bytes}
     (h : AfterDelimNl nl tail f rest) :
     ∃ m, matchTail tail = some (m, f) ∧ tail.drop m = rest := by
-  rcases h with ⟨rfl, x, rfl, rfl⟩ | ⟨rfl, c, r, hc, rfl, rfl⟩
+  rcases h with ⟨rfl, x, rfl, rfl⟩ | ⟨rfl, pad, c, r, hpad, hc, rfl, rfl⟩
   · exact matchTail_afterDelim (AfterDelim.closing x)
-  · refine ⟨nl.len, ?_, by simp [Nl.len]⟩
-    rcases nl.head_isNl (c :: r) with ⟨a, t, he, ha⟩
-    apply matchTail_false_iff.2
-    exact ⟨[], a, t, by simpa using he, by simp, ha, by rw [← he, Nl.lbLen_append r hc]; simp⟩
+  · refine ⟨pad.length + nl.len, matchTail_pad_nl r hpad hc, ?_⟩
+    rw [Nat.add_comm, drop_add_append]
+    simp [Nl.len]
 
 /-- bare-LF bodies: no delimiter can start inside `p` when no line of `p` starts with `--boundary`,
 `p` contains no CR and is followed by an LF -/
@@ -2072,17 +2081,6 @@ theorem dataSpec_encoded_empty_nl {nl : Nl} {bnd : Bytes} (tail : Bytes) {f : Bo
   · have e2 : nl.len + (bnd.length + 2) + m = (m + (delim bnd).length) + nl.bytes.length := by
       simp [delim, Nl.len]; omega
     rw [e2, drop_add_append, drop_add_append, hdrop]
-
-/-- the non-closing delimiter line ends with exactly the line break -/
-theorem matchTail_afterDelimNl_len {nl : Nl} {tail : Bytes} {rest : Bytes}
-    (h : AfterDelimNl nl tail false rest) :
-    matchTail tail = some (nl.len, false) ∧ tail.drop nl.len = rest := by
-  rcases h with ⟨hf, _⟩ | ⟨_, c, r, hc, rfl, rfl⟩
-  · simp at hf
-  · refine ⟨?_, by simp [Nl.len]⟩
-    rcases nl.head_isNl (c :: r) with ⟨a, t, he, ha⟩
-    apply matchTail_false_iff.2
-    exact ⟨[], a, t, by simpa using he, by simp, ha, by rw [← he, Nl.lbLen_append r hc]; simp⟩
 
 /-- `matchDelimAt_restrict_true` with the exact length bound -/
 theorem matchDelimAt_restrict_true' {bnd x c : Bytes} {o : Bool} {n : Nat}
